@@ -99,6 +99,10 @@ def solve_any(rows, rhs, nunk):
     return x
 
 
+def kgroup(kind):
+    return 't' if kind in TGROUP else ('s' if kind in SGROUP else 'other')
+
+
 # ---- Coq literals --------------------------------------------------------------------
 def lit(x, cplx):
     if x is None:
@@ -242,10 +246,10 @@ def features_at_node(r, node):
             if lp.get('srcI') is not None and mp.get('pIsc') is not None and Num.of(lp['srcI']) != Num.of(mp['pIsc']):
                 feats.append('I.source-value')
         if cl in ('LL', 'LC') and lp.get('ic'):
-            feats.append('%s.ic@%s' % (cl[1], where))
+            feats.append('%s.ic_%s@%s' % (cl[1], kgroup(r['kind']), where))
         if cl in ('LL', 'LC') and r['kind'] not in TGROUP:
             zk, pz = lp.get('Zk'), mp.get('pZ')
-            if zk is None or pz is None or Num.of(zk) != Num.of(pz):
+            if zk is not None and pz is not None and Num.of(zk) != Num.of(pz):
                 feats.append('%s.Zkind' % cl[1])
     return feats
 
@@ -297,7 +301,7 @@ def nodal_oracle(r):
                 e = [x for x in r['elements'] if x['name'] == pick][0]
                 sv, pv = e['lp'].get('srcV'), e['mna'].get('pVoc')
                 d['vsrc'] = pick
-                d['features'] = ['V.source-value:%s' % e['cls']] if (sv is None or pv is None or Num.of(sv) != Num.of(pv)) else []
+                d['features'] = ['V.source-value:%s' % e['cls']] if (sv is not None and pv is not None and Num.of(sv) != Num.of(pv)) else []
             else:
                 d['features'] = features_at_node(r, node)
             bad.append(d)
@@ -334,8 +338,8 @@ def true_incidence(r):
 
 
 def code_credit(r):
-    """what _add_mesh_currents credits to each element, per mesh (mirrors the code: adjacency of the element's
-    equipotential node names in the node list of every mesh); the property needs it to be minus the true incidence"""
+    """incidence of meshes on elements as LoopAnalysis._add_mesh_currents determines it: adjacency of the element's
+    equipotential node names in the node list of every mesh (+1 along n1 -> n2); the property needs it to be the true incidence"""
     ms = r['mesh']
     out = {}
     for e in r['elements']:
@@ -347,10 +351,10 @@ def code_credit(r):
             if n1 in cl and n2 in cl:
                 for a, b in zip(cl, cl[1:]):
                     if (a, b) == (n1, n2):
-                        c = -1
+                        c = 1
                         break
                     if (a, b) == (n2, n1):
-                        c = 1
+                        c = -1
                         break
             row.append(c)
         out[e['name']] = row
@@ -414,17 +418,19 @@ def mesh_oracle(r):
                 c = lcls_of(e)
                 lp_, mp = e['lp'], e['mna']
                 if c in ('LL', 'LC') and lp_.get('ic'):
-                    feats.append('%s.ic' % c[1])
+                    feats.append('%s.ic_%s' % (c[1], kgroup(r['kind'])))
                 if c in ('LL', 'LC') and r['kind'] not in TGROUP:
                     zk, pz = lp_.get('Zk'), mp.get('pZ')
-                    if zk is None or pz is None or Num.of(zk) != Num.of(pz):
+                    if zk is not None and pz is not None and Num.of(zk) != Num.of(pz):
                         feats.append('%s.Zkind' % c[1])
                 if c == 'LV':
                     sv, pv = lp_.get('srcV'), mp.get('pVoc')
-                    if sv is None or pv is None or Num.of(sv) != Num.of(pv):
+                    if sv is not None and pv is not None and Num.of(sv) != Num.of(pv):
                         feats.append('V.source-value:%s' % e['cls'])
-            if any(credit.get(e['name']) != [-x for x in T.get(e['name'], [])] for e in on_loop if lcls_of(e) != 'LV'):
-                feats.append('mesh-current-crediting')
+            if any(credit.get(e['name']) != T.get(e['name'], []) for e in on_loop if lcls_of(e) != 'LV'):
+                feats.append('parallel-branches(dummy-node)' if any(n >= 1000 for l_ in ms['loops'] for n in l_) else 'mesh-current-crediting')
+            if r['kind'] == 'ac':
+                feats.append('ac-phasor')
             bad.append({'mesh': m, 'residual': repr(res), 'lhs': q['lhs'], 'rhs': q['rhs'], 'features': feats, 'loop': ms['loop_names'][m]})
     return bad, stats
 
@@ -474,3 +480,219 @@ def gen_circuit(rng, profile, for_mesh=False, parallel=False, size=None):
             k = rng.choice('RRC' if profile != 'dc' else 'RR')
             out.append('%s8 %s %s %s' % (k, a, b, fs(netgen.val(rng))))
     return out
+
+
+# ---- state space of a circuit -------------------------------------------------------------------
+def frac_mat(M):
+    return [[Fraction(x) for x in row] for row in M]
+
+
+def mat_ok(M):
+    return M is not None and all(x is not None for row in M for x in row)
+
+
+def det_frac(M):
+    M = [list(r) for r in M]
+    n = len(M)
+    d = Fraction(1)
+    for c in range(n):
+        p = None
+        for i in range(c, n):
+            if M[i][c] != 0:
+                p = i
+                break
+        if p is None:
+            return Fraction(0)
+        if p != c:
+            M[c], M[p] = M[p], M[c]
+            d = -d
+        d *= M[c][c]
+        for i in range(c + 1, n):
+            f = M[i][c] / M[c][c]
+            if f:
+                M[i] = [x - f * y for x, y in zip(M[i], M[c])]
+    return d
+
+
+def ss_expected_subst(d, conv):
+    """what the hand model (Gen.C15ss.subst with the regenerated conventions) says the substituted netlist line is"""
+    nm, n = d['name'], d['nodes']
+    if d['is_L']:
+        return 'I_%s %s %s {%si_%s(t)}' % (nm, n[0], n[1], '-' if conv['L_src'] != '1' else '', nm)
+    if d['is_C']:
+        return 'V_%s %s %s {%sv_%s(t)}' % (nm, n[0], n[1], '-' if conv['C_src'] != '1' else '', nm)
+    return None
+
+
+def ss_checks(ci, r):
+    """Coq items: extraction contract on Lcapy-solved excitations of the substituted circuit"""
+    out = []
+    ss = r.get('ss')
+    if not ss or not all(mat_ok(ss.get(k)) for k in 'ABCD'):
+        return out
+
+    def m(M):
+        return '[%s]' % '; '.join('[%s]' % '; '.join(core.qc_lit(x) for x in row) for row in M)
+
+    def v(xs):
+        return '[%s]' % '; '.join(core.qc_lit(x) for x in xs)
+    for k, e in enumerate(ss.get('excitations', [])):
+        if 'error' in e or any(x is None for x in e['dotx'] + e['y']):
+            continue
+        out.append(('ss/%d/excitation%d' % (ci, k), None,
+                    'ss_exc_ok %s %s %s %s %s %s %s %s' % (m(ss['A']), m(ss['B']), m(ss['C']), m(ss['D']), v(e['X']), v(e['U']), v(e['dotx']), v(e['y']))))
+    return out
+
+
+def ss_oracle(r, conv):
+    """independent exact checks of the state-space model of one circuit.  returns (violations, contract failures, stats)"""
+    bad, contract = [], []
+    st = {'checked': 0, 'skipped': 0}
+    ss = r.get('ss')
+    if not ss:
+        return bad, contract, st
+    if not all(mat_ok(ss.get(k)) for k in 'ABCD') or any(x is None for x in ss['x0']):
+        st['skipped'] += 1
+        return bad, contract, st
+    A, B, C, D = [frac_mat(ss[k]) for k in 'ABCD']
+    n = len(A)
+    s0 = Fraction(ss['points'][0])
+    # extraction contract on the excitations Lcapy solved itself (also evaluated inside Coq): A X + B U = dx/dt, C X + D U = y
+    extraction_bad = False
+    for e in ss.get('excitations', []):
+        if 'error' in e or any(x is None for x in e['dotx'] + e['y']):
+            continue
+        X_, U_ = [Fraction(x) for x in e['X']], [Fraction(x) for x in e['U']]
+        for k in range(n):
+            if sum(A[k][j] * X_[j] for j in range(n)) + sum(B[k][j] * U_[j] for j in range(len(U_))) != Fraction(e['dotx'][k]):
+                extraction_bad = True
+        for k in range(len(C)):
+            if sum(C[k][j] * X_[j] for j in range(n)) + sum(D[k][j] * U_[j] for j in range(len(U_))) != Fraction(e['y'][k]):
+                extraction_bad = True
+    unit_neg = any(u.replace(' ', '').startswith('-') for u in ss.get('u', []))
+    # (1) substitution model
+    for d in ss['ssnet']:
+        exp = ss_expected_subst(d, conv)
+        if exp is not None and d['ss'].split(';')[0].strip() != exp:
+            contract.append({'what': 'substituted netlist line differs from the model', 'line': d['ss'], 'expected': exp})
+    # (2) response: (sI - A) X = B U + x0, Y = C X + D U against circuit analysis
+    if ss.get('U') is not None and all(u is not None for u in ss['U']):
+        U = [Fraction(u) for u in ss['U']]
+        x0 = [Fraction(x) for x in ss['x0']]
+        rows = [[(s0 if i == j else 0) - A[i][j] for j in range(n)] for i in range(n)]
+        rhs = [sum(B[i][j] * U[j] for j in range(len(U))) + x0[i] for i in range(n)]
+        if n == 0:
+            X = []
+        elif det_frac(rows) == 0:
+            X = None
+        else:
+            X = [z.re for z in solve_any(rows, rhs, n)]
+        if X is None:
+            st['skipped'] += 1
+        else:
+            for k, (yn, yr) in enumerate(zip(ss['y'], ss['yref'])):
+                if yr is None:
+                    st['skipped'] += 1
+                    continue
+                y = sum(C[k][j] * X[j] for j in range(n)) + sum(D[k][j] * U[j] for j in range(len(U)))
+                st['checked'] += 1
+                if y != Fraction(yr):
+                    bad.append({'key': ('ss:extraction:negated-source-expression' if unit_neg else 'ss:extraction') if extraction_bad else
+                                'ss:response:%s%s' % ('with-ic:' if any(x0) else '', 'voltage' if yn.startswith('v_') else 'current'),
+                                'what': 'state-space output %s = %s at s = %s, circuit analysis gives %s' % (yn, y, s0, yr)})
+            for k, (xn, xr) in enumerate(zip(ss['x'], ss.get('xref', []))):
+                if xr is not None:
+                    st['checked'] += 1
+                    if X[k] != Fraction(xr):
+                        bad.append({'key': 'ss:state:%s' % xn[0], 'what': 'state %s = %s at s = %s, circuit analysis gives %s' % (xn, X[k], s0, xr)})
+            # (3) the class's own G and Phi (sympy inverse = oracle)
+            if mat_ok(ss.get('G')) and len(U) > 0:
+                G = frac_mat(ss['G'])
+                for j in range(len(U)):
+                    col = solve_any(rows, [B[i][j] for i in range(n)], n) if n else []
+                    for k in range(len(C)):
+                        g = sum(C[k][i] * col[i].re for i in range(n)) + D[k][j]
+                        st['checked'] += 1
+                        if g != G[k][j]:
+                            contract.append({'what': 'ss.G[%d,%d] differs from C (sI-A)^-1 B + D computed exactly' % (k, j)})
+            if mat_ok(ss.get('Phi')) and n:
+                Phi = frac_mat(ss['Phi'])
+                for i in range(n):
+                    for j in range(n):
+                        if sum(rows[i][k] * Phi[k][j] for k in range(n)) != (1 if i == j else 0):
+                            contract.append({'what': '(sI - A) Phi != I'})
+    # (4) characteristic polynomial: |sI - A| and the natural frequencies of the circuit (MNA determinant) agree up to a constant
+    if ss.get('P') and all(p is not None for p in ss['P']):
+        pts = [Fraction(p) for p in ss['points']]
+        P = [Fraction(p) for p in ss['P']]
+        for p, pv in zip(pts, P):
+            mine = det_frac([[(p if i == j else 0) - A[i][j] for j in range(n)] for i in range(n)]) if n else Fraction(1)
+            st['checked'] += 1
+            if mine != pv:
+                bad.append({'key': 'ss:characteristic-polynomial:det', 'what': 'characteristic_polynomial()(%s) = %s but |sI - A| = %s' % (p, pv, mine)})
+        md = ss.get('mna_det')
+        if md and all(x is not None for x in md) and ss.get('mna_kind') in ('ivp', 'laplace', 's', 'transient'):
+            md = [Fraction(x) for x in md]
+            st['checked'] += 1
+            if any(P[0] * md[i] != P[i] * md[0] for i in range(len(pts))) or (P[0] == 0) != (md[0] == 0):
+                bad.append({'key': 'ss:characteristic-polynomial:natural-frequencies',
+                            'what': 'characteristic polynomial is not a constant multiple of the determinant of the MNA matrix (values %s vs %s)' % (P, md)})
+    if extraction_bad and not bad:
+        contract.append({'what': 'A, B, C, D do not reproduce an excitation of the substituted circuit'})
+    return bad, contract, st
+
+
+def mna_oracle(r):
+    """the matrix equations shown by SystemEquations use the solver's A and Z, in the documented arrangement,
+    and the reported solution satisfies them"""
+    bad = []
+    st = {'checked': 0}
+    m = r.get('mna')
+    if not m or 'forms' not in m or not mat_ok(m.get('A')) or any(z is None for z in m['Z']):
+        return bad, st
+    A = m['A']
+    Z = [[z] for z in m['Z']]
+    want = {'A y = b': (['A', 'y'], ['b']), 'b = A y': (['b'], ['A', 'y']), 'default': (['y'], ['Ainv', 'b']), 'Ainv b = y': (['Ainv', 'b'], ['y'])}
+
+    def shape(side):
+        out = []
+        for f in side:
+            if 'inv' in f:
+                out.append('Ainv' if f['inv'] == A else 'inv?')
+            elif 'names' in f:
+                out.append('y')
+            elif 'vals' in f:
+                out.append('A' if f['vals'] == A else ('b' if f['vals'] == Z else 'vals?'))
+        return out
+    for form, (wl, wr) in want.items():
+        f = m['forms'].get(form, {})
+        if 'error' in f:
+            bad.append({'key': 'mna:matrix_equations:%s' % f['error'].split(':')[0], 'what': 'matrix_equations(%r) raises %s' % (form, f['error'])})
+            continue
+        st['checked'] += 1
+        if shape(f['lhs']) != wl or shape(f['rhs']) != wr:
+            bad.append({'key': 'mna:matrix_equations:%s' % form.replace(' ', ''), 'what': 'matrix_equations(%r) shows %s = %s (A, b = the solver\'s matrices)' % (form, shape(f['lhs']), shape(f['rhs']))})
+    # the reported solution satisfies the system that is shown
+    names = None
+    f = m['forms'].get('A y = b', {})
+    if 'lhs' in f and len(f['lhs']) == 2 and 'names' in f['lhs'][1]:
+        names = [row[0] for row in f['lhs'][1]['names']]
+    if names and r.get('kind') in TGROUP + SGROUP + ('ivp',):
+        x = []
+        for nm in names:
+            base = nm.split('(')[0]
+            if base.startswith('Vn'):
+                val = r.get('refV', {}).get(base[2:])
+            elif base.startswith('I'):
+                val = r.get('refI', {}).get(base[1:])
+            else:
+                val = None
+            x.append(val)
+        if all(v is not None and not isinstance(v, list) for v in x) and len(x) == len(A):
+            xs = [Fraction(v) for v in x]
+            for i, row in enumerate(A):
+                st['checked'] += 1
+                if sum(Fraction(a) * b for a, b in zip(row, xs)) != Fraction(m['Z'][i]):
+                    bad.append({'key': 'mna:solution-does-not-satisfy-shown-system', 'what': 'row %d of the shown system A y = b is not satisfied by the reported voltages/currents' % i})
+                    break
+    return bad, st
